@@ -1,11 +1,15 @@
 /-
 C09 — Text normal form and preprocessing preserve meaning.
 
-Property theorems only (helper lemmas: `Proofs/MarshalText.lean`; model: `Model/MarshalText.lean`).
-`isPrint` is Go's `strconv.IsPrint`, a parameter as in C17: every statement holds for every such
-predicate; the correspondence check feeds the real table.
+Property theorems only (helper lemmas: `Proofs/MarshalText.lean`, `Proofs/MarshalQuote.lean`,
+`Proofs/MarshalNorm.lean`; model: `Model/MarshalText.lean`).
+`isPrint` is Go's `strconv.IsPrint`, a parameter as in C17: the statements about `WF` records hold for
+every such predicate; the statements about names with empty labels (`*_norm`, `text_normal_form`)
+need two facts about it that are true of Go's table, `.` and `*` printable (`PrintsDotStar`), and
+their 63-byte-label corollaries the ASCII range printable (`PrintsAscii`). The correspondence check
+feeds the real table.
 -/
-import DnsVerif.Proofs.MarshalText
+import DnsVerif.Proofs.MarshalNorm
 
 namespace DnsVerif.Props.C09
 open DnsVerif DnsVerif.Codec DnsVerif.Net DnsVerif.MarshalText
@@ -63,34 +67,8 @@ Every restriction the seven C09 defects had forced on `WF` is gone:
 * names with a literal `*` label behind an empty one (`Plain` now holds for `.*.a.b`) — before
   commit 38cc22d this was false: `+.*.a.b,1.2.3.4` (written as `+*.a.b`, a wildcard record). -/
 theorem parse_marshal (isPrint : Nat → Bool) (cfg : Cfg) (r : Record) (h : WF isPrint cfg r) :
-    ∃ t, marshalText isPrint cfg r = .ok t ∧ parseRecord cfg t = .ok r := by
-  cases r with
-  | soa dom ns adm ser ref ret exp min ttl lo => exact ⟨_, rfl, pm_soa isPrint cfg _ _ _ _ _ _ _ _ _ _ h⟩
-  | net lo ip ones lmap => exact ⟨_, rfl, pm_net isPrint cfg _ _ _ _ h⟩
-  | dot dom ip ns ttl lo => exact ⟨_, rfl, pm_dot isPrint cfg _ _ _ _ _ h⟩
-  | ns dom ip ns ttl lo => exact ⟨_, rfl, pm_ns isPrint cfg _ _ _ _ _ h⟩
-  | addr dom wild ip ttl lo weight => exact ⟨_, rfl, pm_addr isPrint cfg _ _ _ _ _ _ h⟩
-  | paddr dom wild ip ttl lo => exact ⟨_, rfl, pm_paddr isPrint cfg _ _ _ _ _ h⟩
-  | mx dom ip mx dist ttl lo => exact ⟨_, rfl, pm_mx isPrint cfg _ _ _ _ _ _ h⟩
-  | srv dom ip srv port pri weight ttl lo => exact ⟨_, rfl, pm_srv isPrint cfg _ _ _ _ _ _ _ _ h⟩
-  | cname dom wild cname ttl lo => exact ⟨_, rfl, pm_cname isPrint cfg _ _ _ _ _ h⟩
-  | ptr dom host ttl lo => exact ⟨_, rfl, pm_ptr isPrint cfg _ _ _ _ h⟩
-  | txt dom wild txt ttl lo => exact ⟨_, rfl, pm_txt isPrint cfg _ _ _ _ _ h⟩
-  | aux dom rtype rdata ttl lo => exact ⟨_, rfl, pm_aux isPrint cfg _ _ _ _ _ h⟩
-  | ipmap dom lmap => exact ⟨_, rfl, pm_ipmap isPrint cfg _ _ h⟩
-  | csmap dom lmap => exact ⟨_, rfl, pm_csmap isPrint cfg _ _ h⟩
-  | rangepoint lmap ip maskLen loc =>
-    obtain ⟨hl, hip, hc, hm, hlo, hn⟩ := h
-    cases loc with
-    | none =>
-      have h0 : maskLen = 0 := hn rfl
-      subst h0
-      exact ⟨_, rfl, pm_rangepoint_none isPrint cfg lmap ip 0 hl hip hc⟩
-    | some l => exact ⟨_, rfl, pm_rangepoint_some isPrint cfg lmap ip maskLen l hl hip hc hm (hlo l rfl)⟩
-  | svcb https dom wild tgt ttl lo prio params =>
-    obtain ⟨hd, hw, ht, hsk, httl, hlo, hprio, ptxt, hto, hfrom, hpc⟩ := h
-    refine ⟨_, ?_, pm_svcb isPrint cfg https dom wild tgt ttl lo prio params ptxt hd hw ht hsk httl hlo hprio hfrom hpc⟩
-    simp only [marshalText, marshalFields, hto]
+    ∃ t, marshalText isPrint cfg r = .ok t ∧ parseRecord cfg t = .ok r :=
+  parse_marshal_wf isPrint cfg r h
 
 /-- (T1) the re-serialised text compiles to exactly the same keys and values -/
 theorem compile_marshal_parse (isPrint : Nat → Bool) (cfg : Cfg) (r : Record) (h : WF isPrint cfg r) :
@@ -131,10 +109,11 @@ def lineRoundTrips (isPrint : Nat → Bool) (cfg : Cfg) (line : Bytes) : Bool :=
 def text_normal_form_full : Prop :=
   ∀ (isPrint : Nat → Bool) (cfg : Cfg) (line : Bytes), lineRoundTrips isPrint cfg line = true
 
-/-- what holds: lines whose record is well-formed (`WF`). After the repairs `WF` restricts a line
-only in ways that are not defects of the text codec: numbers in range, 2-byte ids (both always true
-of a decoded record), names without empty labels and without labels of 256 quoted bytes, and the
-library round trips (`net.IP`, `svcb.ParamList`) that are taken as given. -/
+/-- the version for records that are already in normal form (`WF`: names without empty labels,
+`Plain`), for every printability predicate; `text_normal_form` below drops the restriction on empty
+labels. `WF` restricts a line only in ways that are not defects of the text codec: numbers in range,
+2-byte ids (both always true of a decoded record), names without empty labels and without labels of
+256 quoted bytes, and the library round trips (`net.IP`, `svcb.ParamList`) that are taken as given. -/
 theorem text_normal_form_partial (isPrint : Nat → Bool) (cfg : Cfg) (line : Bytes) (r : Record)
     (hp : parseRecord cfg line = .ok r) (h : WF isPrint cfg r) :
     lineRoundTrips isPrint cfg line = true := by
@@ -153,7 +132,8 @@ def longLabel : Bytes := (List.replicate 64 (str "\\000")).flatten
 defects and outside DNS: `putdomtext` cuts a *quoted* label at `byte(len)` bytes like `putdom` cuts a
 raw one, so a label of more than 63 bytes whose quoted form reaches 256 bytes is written cut (here:
 dropped, 256 % 256 = 0) although the key keeps it. No label of at most 63 bytes is affected (its
-quoted form has at most 252 bytes).
+quoted form has at most 252 bytes: `text_normal_form_dns`), and this is the only restriction on the
+names of a line that remains: `text_normal_form` holds for names with any empty labels.
 
 Before commits 3d0f541, 93d8e78 (with f23a325), 4019032, e085238, 88912b9, 38cc22d this was false on ordinary
 lines; the witness used to be `Za.b,ns.a.b,hm.a.b,0`, which now round-trips (examples below). -/
@@ -247,6 +227,139 @@ example : WF asciiPrint rdbCfg (.addr (str "a.b") true (some (v4Prefix ++ [1, 2,
   · intro l hl; cases hl; rfl
   · decide
 
+/-! ### names with empty labels: the text is a normal form of the record
+
+A decoded record keeps its names as the unquoted text of the line (`a.b.`, `.a.b`, `a..b` are three
+different records that compile to the same keys and values as `a.b`). `MarshalText` writes the
+normal form: `normRec r` is `r` with every name replaced by what its writer produces (`normName`:
+the non-empty labels joined by dots, `.` for the root kept, one leading dot kept in front of a
+literal `*` label; `normServer`: a trailing dot for a single label; `normMap`: the `*.` of a
+wildcard map kept), and a range point without location loses its mask length. -/
+
+/-- **Every record with in-range numbers and labels whose quoted form is shorter than 256 bytes —
+empty labels (trailing, leading, doubled dots) allowed, all 17 line types — marshals to a text that
+decodes to the record's normal form, which compiles to the same keys and values, is written as the
+same text, and is its own normal form.** `Struct` holds of every decoded record
+(`parse_yields_struct`); `LibOK` is the `net.IP` / `net.IPNet` / `svcb.ParamList` text round trip. -/
+theorem parse_marshal_norm {isPrint : Nat → Bool} (hp : PrintsDotStar isPrint) (cfg : Cfg) (r : Record)
+    (hst : Struct cfg r) (hn : NamesShort isPrint r) (hl : LibOK r) :
+    ∃ t, marshalText isPrint cfg r = .ok t ∧ parseRecord cfg t = .ok (normRec r) ∧
+      recordKVs cfg (normRec r) = recordKVs cfg r ∧
+      marshalText isPrint cfg (normRec r) = .ok t ∧ normRec (normRec r) = normRec r := by
+  obtain ⟨t, ht, hpt⟩ := parse_marshal_normRec hp cfg r hst hn hl
+  refine ⟨t, ht, hpt, recordKVs_normRec cfg r, ?_, normRec_idem r⟩
+  rw [marshalText_normRec hp cfg r hn, ht]
+
+/-- (T1), empty labels allowed: the re-serialised text compiles to exactly the same keys and values -/
+theorem compile_marshal_parse_norm {isPrint : Nat → Bool} (hp : PrintsDotStar isPrint) (cfg : Cfg)
+    (r : Record) (hst : Struct cfg r) (hn : NamesShort isPrint r) (hl : LibOK r) :
+    ∃ t, marshalText isPrint cfg r = .ok t ∧
+      (parseRecord cfg t).map (recordKVs cfg) = .ok (recordKVs cfg r) := by
+  obtain ⟨t, ht, hpt, hkv, _, _⟩ := parse_marshal_norm hp cfg r hst hn hl
+  exact ⟨t, ht, by rw [hpt, ← hkv]; rfl⟩
+
+/-- (T2), empty labels allowed: serialising again gives the same text -/
+theorem marshal_idempotent_norm {isPrint : Nat → Bool} (hp : PrintsDotStar isPrint) (cfg : Cfg)
+    (r : Record) (hst : Struct cfg r) (hn : NamesShort isPrint r) (hl : LibOK r) :
+    ∃ t, marshalText isPrint cfg r = .ok t ∧
+      (parseRecord cfg t).bind (marshalText isPrint cfg) = .ok t := by
+  obtain ⟨t, ht, hpt, _, hmt, _⟩ := parse_marshal_norm hp cfg r hst hn hl
+  exact ⟨t, ht, by rw [hpt]; exact hmt⟩
+
+/-- the structural hypothesis of the three theorems above is no restriction on decoded records:
+every record the line decoder yields, from any text, has its numbers in range, 2-byte location / map
+ids and a wildcard flag consistent with its name (`cfg.serial` is a `uint32` in the Go code) -/
+theorem parse_yields_struct (cfg : Cfg) (hser : cfg.serial < 2 ^ 32) (line : Bytes) (r : Record)
+    (h : parseRecord cfg line = .ok r) : Struct cfg r :=
+  struct_of_parse cfg hser line r h
+
+/-- the name writers produce quoted normal forms, whatever empty labels the name has -/
+theorem name_writers_normalise {isPrint : Nat → Bool} (hp : PrintsDotStar isPrint) (a : Bytes)
+    (hs : ShortLabels isPrint a) :
+    domText isPrint a = Quote.bquote isPrint (normName a) ∧
+    serverText isPrint a = Quote.bquote isPrint (normServer a) ∧
+    mapDomText isPrint a = Quote.bquote isPrint (normMap a) ∧
+    Name.putdom (normName a) = Name.putdom a ∧ normName (normName a) = normName a :=
+  ⟨domText_eq hp a hs, serverText_eq hp a hs, mapDomText_eq hp a hs, (sameLabels_normName a).putdom,
+    normName_idem a⟩
+
+/-- **The text normal form, without the restriction on empty labels**: every line that decodes —
+whatever trailing, leading or doubled dots its names have — to a record whose labels have quoted
+forms shorter than 256 bytes re-serialises to a text that decodes to a record compiling to the same
+keys and values, and re-serialising that record gives the same text. The remaining hypotheses:
+`.` and `*` printable (true of Go's table), the default serial a `uint32`, `NamesShort` (the one
+genuine restriction: `text_normal_form_full_false`), and the library round trips `LibOK`. -/
+theorem text_normal_form {isPrint : Nat → Bool} (hp : PrintsDotStar isPrint) (cfg : Cfg)
+    (hser : cfg.serial < 2 ^ 32) (line : Bytes) (r : Record) (hline : parseRecord cfg line = .ok r)
+    (hn : NamesShort isPrint r) (hl : LibOK r) : lineRoundTrips isPrint cfg line = true := by
+  obtain ⟨t, ht, hpt, hkv, hmt, _⟩ :=
+    parse_marshal_norm hp cfg r (parse_yields_struct cfg hser line r hline) hn hl
+  unfold lineRoundTrips
+  simp only [hline, ht, hpt, hmt, hkv, beq_self_eq_true, Bool.and_self]
+
+/-- the same for DNS-sized labels: with the ASCII range printable (true of Go's table) a line whose
+names have labels of at most 63 bytes — empty ones included — round-trips -/
+theorem text_normal_form_dns {isPrint : Nat → Bool} (hpa : Quote.PrintsAscii isPrint) (cfg : Cfg)
+    (hser : cfg.serial < 2 ^ 32) (line : Bytes) (r : Record) (hline : parseRecord cfg line = .ok r)
+    (hn : NamesLe63 r) (hl : LibOK r) : lineRoundTrips isPrint cfg line = true :=
+  text_normal_form (printsDotStar_of_ascii hpa) cfg hser line r hline (namesShort_of_le63 hpa r hn) hl
+
+/-! the two facts about `isPrint` are needed (both hold of Go's table): with `.` not printable the
+dots are written as escapes and the whole quoted name is cut as one label (eleven labels `aaaa`,
+each 24 quoted bytes); with `*` not printable `putdomtext` does not see the `*.` that dropping an
+empty first label creates, and the name is read back as a wildcard -/
+example : lineRoundTrips (fun _ => false) rdbCfg
+    (str "+" ++ (List.replicate 11 (str "aaaa.")).flatten ++ str "b,1.2.3.4") = false := by decide +kernel
+example : lineRoundTrips (fun r => r != 0x2a && asciiPrint r) rdbCfg (str "+.*.a,1.2.3.4") = false := by
+  decide +kernel
+
+theorem asciiPrint_printsAscii : Quote.PrintsAscii asciiPrint := by
+  intro r h1 h2
+  simp only [asciiPrint, decide_eq_true_eq]
+  omega
+
+theorem ok_of_toOption {e : Except Err Record} {r : Record} (h : e.toOption = some r) : e = .ok r := by
+  cases e with
+  | error _ => cases h
+  | ok x => cases h; rfl
+
+/-! non-vacuity: lines with a trailing, a leading and a doubled dot, a server name that is a single
+fully qualified label. Their records are not in normal form (`parse_marshal` does not apply), they
+satisfy every hypothesis of `text_normal_form_dns`, decode after marshalling to the record of the
+line without the empty labels, and pass the computable check. -/
+example : ¬ Plain asciiPrint (str "a.b.") := by unfold Plain; decide +kernel
+example : ¬ Plain asciiPrint (str ".a.b") := by unfold Plain; decide +kernel
+example : ¬ Plain asciiPrint (str "a..b") := by unfold Plain; decide +kernel
+
+example : ∃ r, parseRecord rdbCfg (str "+a.b.,1.2.3.4") = .ok r ∧ NamesLe63 r ∧ LibOK r ∧ normRec r ≠ r ∧
+    parseRecord rdbCfg (str "+a.b,1.2.3.4") = .ok (normRec r) :=
+  ⟨.addr (str "a.b.") false (some (v4Prefix ++ [1, 2, 3, 4])) 86400 none 1, ok_of_toOption (by decide +kernel),
+    by decide +kernel, ⟨by decide +kernel, by decide +kernel⟩, by decide +kernel, ok_of_toOption (by decide +kernel)⟩
+
+example : ∃ r, parseRecord rdbCfg (str "+.a.b,1.2.3.4") = .ok r ∧ NamesLe63 r ∧ LibOK r ∧ normRec r ≠ r ∧
+    parseRecord rdbCfg (str "+a.b,1.2.3.4") = .ok (normRec r) :=
+  ⟨.addr (str ".a.b") false (some (v4Prefix ++ [1, 2, 3, 4])) 86400 none 1, ok_of_toOption (by decide +kernel),
+    by decide +kernel, ⟨by decide +kernel, by decide +kernel⟩, by decide +kernel, ok_of_toOption (by decide +kernel)⟩
+
+example : ∃ r, parseRecord rdbCfg (str "&a..b,,ns.,60") = .ok r ∧ NamesLe63 r ∧ LibOK r ∧ normRec r ≠ r ∧
+    parseRecord rdbCfg (str "&a.b,,ns.,60") = .ok (normRec r) :=
+  ⟨.ns (str "a..b") none (str "ns.") 60 none, ok_of_toOption (by decide +kernel),
+    by decide +kernel, ipOK_none, by decide +kernel, ok_of_toOption (by decide +kernel)⟩
+
+-- a `*` label behind an empty one keeps its leading dot, a wildcard map its `*.`
+example : normName (str "..*.a.") = str ".*.a" ∧ normMap (str "*..a.") = str "*.a" ∧
+    normServer (str "c") = str "c." ∧ normName (str "..") = [] ∧ normName (str ".") = str "." := by
+  decide +kernel
+
+example : lineRoundTrips asciiPrint rdbCfg (str "+a.b.,1.2.3.4") = true := by decide +kernel
+example : lineRoundTrips asciiPrint rdbCfg (str "+.a.b,1.2.3.4") = true := by decide +kernel
+example : lineRoundTrips asciiPrint rdbCfg (str "+a..b,1.2.3.4") = true := by decide +kernel
+example : lineRoundTrips asciiPrint rdbCfg (str "&a.b,,ns.,60") = true := by decide +kernel
+example : lineRoundTrips asciiPrint rdbCfg (str "&a.b.,,.ns.,60") = true := by decide +kernel
+example : lineRoundTrips asciiPrint rdbCfg (str "M*..a.b.,m1") = true := by decide +kernel
+example : lineRoundTrips asciiPrint rdbCfg (str "B*.a.b.,*..c.,60,,1,") = true := by decide +kernel
+example : lineRoundTrips asciiPrint rdbCfg (str "Za.b.,.ns.a.b,hm..a.b,0") = true := by decide +kernel
+
 /-! ### (T4) the range-point line -/
 
 /-- `!` lines: marshal then decode gives the point back (IPv4 mask lengths are written minus 96 and
@@ -315,21 +428,16 @@ def PointsOK (isPrint : Nat → Bool) (cfg : Cfg) (lines : List Bytes) : Prop :=
   ∀ out subs mps, preprocessLoop isPrint cfg lines [] [] = .ok (out, subs) → rangePoints subs = some mps →
     ∀ mp ∈ mps, PointOK mp
 
-/-- (T5) **Preprocessing preserves the compiled database** (RocksDB codec settings): whenever the
-preprocessor accepts a file, the original and the preprocessed file either both fail to compile or
-compile to the same keys and values — in fact to the same *list*: the copied and normalised lines
-compile, in order, to the records of the original lines, the subnet lines are gone, and the `!`
-lines compile to exactly the range points `SubnetRanger.MarshalMap` computes from the subnets.
-Lines behind blanks, one-character lines, comments, undecodable non-`%`/`Z` lines, any serial are
-all covered.
+/-- what (T5) needs of the `Z` lines, in the form the proof uses it: the text the preprocessor
+writes for the line passes the line filter and decodes to a record with the same keys and values
+(`SoaRewriteOK`). Implied by `SoaLinesWF` and by `SoaLinesShort`. -/
+def SoaLinesRewriteOK (isPrint : Nat → Bool) (cfg : Cfg) (lines : List Bytes) : Prop :=
+  ∀ raw ∈ lines, ∀ l r, filterLine raw = some l → l.head? = some 0x5a → parseRecord cfg l = .ok r →
+    SoaRewriteOK isPrint cfg r
 
-Before commit 4969793 this was false: `["Z"]` (the preprocessor decoded and rewrote a line of the
-single character `Z` into an SOA record for the root, the parser skips lines shorter than two
-bytes) and `["%aa,10.0.0.0/8,m1", " %bb,11.0.0.0/8,m1"]` (a subnet line behind a blank was copied
-instead of being accumulated). Before commit 4019032 it was false on `["Za.b,x.y,z.w,0"]` (explicit
-serial 0 normalised to an empty field and filled in with the default serial on compilation). -/
-theorem preprocess_preserves_compile (isPrint : Nat → Bool) (cfg : Cfg) (lines : List Bytes)
-    (hn : cfg.noRnetOutput = true) (hz : SoaLinesWF isPrint cfg lines) (hpt : PointsOK isPrint cfg lines) :
+/-- (T5) in its general form -/
+theorem preprocess_preserves_of_rewrite (isPrint : Nat → Bool) (cfg : Cfg) (lines : List Bytes)
+    (hn : cfg.noRnetOutput = true) (hz : SoaLinesRewriteOK isPrint cfg lines) (hpt : PointsOK isPrint cfg lines) :
     prepPreserves isPrint cfg lines = true := by
   unfold prepPreserves preprocess
   split
@@ -353,7 +461,7 @@ theorem preprocess_preserves_compile (isPrint : Nat → Bool) (cfg : Cfg) (lines
             rw [hls] at hpre
             simp only [Except.ok.injEq] at hpre
             subst hpre
-            obtain ⟨new, hout, hcmp⟩ := preprocessLoop_sim isPrint cfg hn lines [] [] out0 subs hz hloop
+            obtain ⟨new, hout, hcmp⟩ := preprocessLoop_sim_gen isPrint cfg hn lines [] [] out0 subs hz hloop
             simp only [List.nil_append] at hout
             subst hout
             have hpts := compileLoop_points isPrint cfg mps ls
@@ -376,6 +484,53 @@ theorem preprocess_preserves_compile (isPrint : Nat → Bool) (cfg : Cfg) (lines
               simp only [Option.map, List.append_nil]
               exact sameMultiset_self _
 
+/-- (T5) **Preprocessing preserves the compiled database** (RocksDB codec settings): whenever the
+preprocessor accepts a file, the original and the preprocessed file either both fail to compile or
+compile to the same keys and values — in fact to the same *list*: the copied and normalised lines
+compile, in order, to the records of the original lines, the subnet lines are gone, and the `!`
+lines compile to exactly the range points `SubnetRanger.MarshalMap` computes from the subnets.
+Lines behind blanks, one-character lines, comments, undecodable non-`%`/`Z` lines, any serial are
+all covered.
+
+Before commit 4969793 this was false: `["Z"]` (the preprocessor decoded and rewrote a line of the
+single character `Z` into an SOA record for the root, the parser skips lines shorter than two
+bytes) and `["%aa,10.0.0.0/8,m1", " %bb,11.0.0.0/8,m1"]` (a subnet line behind a blank was copied
+instead of being accumulated). Before commit 4019032 it was false on `["Za.b,x.y,z.w,0"]` (explicit
+serial 0 normalised to an empty field and filled in with the default serial on compilation). -/
+theorem preprocess_preserves_compile (isPrint : Nat → Bool) (cfg : Cfg) (lines : List Bytes)
+    (hn : cfg.noRnetOutput = true) (hz : SoaLinesWF isPrint cfg lines) (hpt : PointsOK isPrint cfg lines) :
+    prepPreserves isPrint cfg lines = true := by
+  apply preprocess_preserves_of_rewrite isPrint cfg lines hn _ hpt
+  intro raw hraw l r hf hh hp
+  cases l with
+  | nil => cases hh
+  | cons c rest =>
+    simp only [List.head?_cons, Option.some.injEq] at hh
+    subst hh
+    exact soaRewriteOK_of_wf isPrint cfg rest r hp (hz raw hraw _ r hf rfl hp)
+
+/-- every `Z` line of the file that decodes has names whose labels have quoted forms shorter than
+256 bytes — trailing, leading and doubled dots allowed -/
+def SoaLinesShort (isPrint : Nat → Bool) (cfg : Cfg) (lines : List Bytes) : Prop :=
+  ∀ raw ∈ lines, ∀ l r, filterLine raw = some l → l.head? = some 0x5a → parseRecord cfg l = .ok r →
+    NamesShort isPrint r
+
+/-- (T5) **without the restriction on empty labels**: the `Z` lines may write their names with
+trailing, leading or doubled dots; the preprocessor normalises them (`Za.b.,ns..a.b,hm.a.b.` becomes
+`Za.b,ns.a.b,hm.a.b,<serial>,…`) and the normalised line compiles to the same keys and values. -/
+theorem preprocess_preserves_compile_norm {isPrint : Nat → Bool} (hp : PrintsDotStar isPrint) (cfg : Cfg)
+    (hser : cfg.serial < 2 ^ 32) (lines : List Bytes) (hn : cfg.noRnetOutput = true)
+    (hz : SoaLinesShort isPrint cfg lines) (hpt : PointsOK isPrint cfg lines) :
+    prepPreserves isPrint cfg lines = true := by
+  apply preprocess_preserves_of_rewrite isPrint cfg lines hn _ hpt
+  intro raw hraw l r hf hh hpr
+  cases l with
+  | nil => cases hh
+  | cons c rest =>
+    simp only [List.head?_cons, Option.some.injEq] at hh
+    subst hh
+    exact soaRewriteOK_of_short hp cfg hser rest r hpr (hz raw hraw _ r hf rfl hpr)
+
 /-- the natural full-strength statement about whole files -/
 def preprocess_preserves_compile_full : Prop :=
   ∀ (isPrint : Nat → Bool) (cfg : Cfg) (lines : List Bytes),
@@ -397,6 +552,9 @@ example : prepPreserves asciiPrint rdbCfg [str "Z"] = true := by decide +kernel
 example : prepPreserves asciiPrint rdbCfg [str "+a.b,1.2.3.4", str "Z"] = true := by decide +kernel
 example : prepPreserves asciiPrint rdbCfg [str "Za.b,x.y,z.w,0"] = true := by decide +kernel
 example : prepPreserves asciiPrint rdbCfg [str "%aa,10.0.0.0/8,m1", str " %bb,11.0.0.0/8,m1"] = true := by
+  decide +kernel
+-- `Z` lines with empty labels are normalised and preserved
+example : prepPreserves asciiPrint rdbCfg [str "Za.b.,ns..a.b,.hm.a.b.", str "+a.b.,1.2.3.4"] = true := by
   decide +kernel
 -- and the files that were preserved before still are
 example : prepPreserves asciiPrint rdbCfg
